@@ -115,6 +115,42 @@ Theorem C09_latest_survives_rotation : forall r lastv sv t,
 Proof. exact rotate_latest. Qed.
 Print Assumptions C09_latest_survives_rotation.
 
+(* (4') the retained-version set: a commit changes the saved versions only at the new version
+   and at the (at most two) versions the rotation rule names; every other version is retained *)
+Theorem C09_commit_retains : forall s v,
+  v <> version s + 1 -> v <> version s - recent (rot s) ->
+  v <> version s - recent (rot s) - cycles (rot s) * every (rot s) ->
+  saved (step s BlockCommit).2 !! v = saved s !! v.
+Proof. exact commit_retains. Qed.
+Print Assumptions C09_commit_retains.
+
+(* every versioned read (retained or released version) answers the same before and after any run
+   without a block commit — reads, writes, sessions, fresh states and REOPEN — and the version
+   number is unchanged; a reopen returns the last commit as the working tree *)
+Theorem C09_versioned_reads_stable : forall ops s v k, Forall (fun o => o <> BlockCommit) ops ->
+  (step (final s ops) (GetVersioned v k)).1 = (step s (GetVersioned v k)).1 /\
+  version (final s ops) = version s.
+Proof. exact versioned_reads_stable. Qed.
+Print Assumptions C09_versioned_reads_stable.
+
+Theorem C09_reopen_keeps_versions : forall s v k,
+  (step (step s Reopen).2 (GetVersioned v k)).1 = (step s (GetVersioned v k)).1 /\
+  saved (step s Reopen).2 = saved s /\ version (step s Reopen).2 = version s /\
+  tree (step s Reopen).2 = default ∅ (saved s !! version s).
+Proof. exact reopen_keeps_versions. Qed.
+Print Assumptions C09_reopen_keeps_versions.
+
+(* non-vacuity under the node default (recent 10, every 100, cycles 10): three commits, a reopen;
+   versions 1 and 2 (older than the last commit) still read their old values, and the seeded
+   lazy-load behaviour (absent) is not what the model says *)
+Example C09_versions_after_reopen_node_default :
+  outputs (init {| recent := 10; every := 100; cycles := 10 |})
+    [Set_ 0%N [1%N]; BlockCommit; Set_ 0%N [2%N]; BlockCommit; Set_ 0%N [3%N]; BlockCommit; Reopen;
+     GetVersioned 1 0%N; GetVersioned 2 0%N; GetVersioned 3 0%N; Get 0%N]
+  = [OUnit; OVersion 1; OUnit; OVersion 2; OUnit; OVersion 3; OUnit;
+     OVal (Some [1%N]); OVal (Some [2%N]); OVal (Some [3%N]); OVal (Some [3%N])].
+Proof. vm_compute. reflexivity. Qed.
+
 (* non-vacuity: a concrete non-trivial sequence satisfies the guard and exercises every layer *)
 Example C09_guard_nonvacuous :
   guardedb (init {| recent := 1; every := 2; cycles := 1 |})
